@@ -378,7 +378,7 @@ func (ev *specEnv) local(name string) (Val, bool) {
 			if !ok {
 				break
 			}
-			if phi.Comment == name {
+			if phi.Comment == name || strings.ReplaceAll(phi.Comment, ".", "_") == name {
 				if v, ok := fr.vals[phi]; ok {
 					return v, true
 				}
@@ -520,6 +520,20 @@ func (ev *specEnv) evalLoc(n *specNode) Ptr {
 			return Ptr{Prefix: "elem:" + typeStr(et), Idx: []Term{sl.Base, app(sInt, "+", sl.Off, idx)}, Elem: et, GT: types.NewPointer(et)}
 		}
 	case *ast.Ident:
+		if ev.fr != nil {
+			// a named local variable that lives in memory (address taken)
+			for _, b := range ev.fr.fn.Blocks {
+				for _, ins := range b.Instrs {
+					if a, ok := ins.(*ssa.Alloc); ok && a.Comment == e.Name {
+						if pv, ok := ev.fr.vals[a]; ok {
+							if _, isReg := ev.fr.regs[a]; !isReg {
+								return x.asPtr(pv)
+							}
+						}
+					}
+				}
+			}
+		}
 		if p := ev.scope(); p != nil {
 			if v, ok := p.Scope().Lookup(e.Name).(*types.Var); ok {
 				if _, isVar := ev.lookupVar(e.Name); !isVar {
@@ -538,7 +552,7 @@ func (ev *specEnv) index(base, idx Val) Val {
 	case Sl:
 		et := b.GT.Underlying().(*types.Slice).Elem()
 		i := ev.coerceInt(idx.(Sc)).T
-		p := Ptr{Prefix: "elem:" + typeStr(et), Idx: []Term{b.Base, app(sInt, "+", b.Off, i)}, Elem: et}
+		p := Ptr{Prefix: "elem:" + typeStr(et), Idx: []Term{b.Base, addIndex(b.Off, i)}, Elem: et}
 		return x.load(ev.st, p, et)
 	case ArrV:
 		i := ev.coerceInt(idx.(Sc)).T
@@ -1228,6 +1242,18 @@ func litConst(t Term) (constant.Value, bool) {
 // become arithmetic-free selects, which E-matching handles reliably.
 func absorbOffset(body, v string, outer []string) string {
 	needle := " " + v + ")"
+	// if the variable already is a direct array index somewhere, the quantifier has a clean trigger
+	for from := 0; ; {
+		i := strings.Index(body[from:], needle)
+		if i < 0 {
+			break
+		}
+		i += from
+		from = i + 1
+		if isSelectIndex(body, i+1) {
+			return body
+		}
+	}
 	for from := 0; ; {
 		i := strings.Index(body[from:], needle)
 		if i < 0 {
@@ -1276,9 +1302,71 @@ func absorbOffset(body, v string, outer []string) string {
 			continue
 		}
 		whole := "(+ " + X + " " + v + ")"
+		// only absorb offsets of array accesses: the term must be the index argument of a select
+		if !strings.Contains(body, " "+whole+")") || !isSelectIndex(body, k) {
+			continue
+		}
 		out := strings.ReplaceAll(body, whole, "\x00")
 		out = strings.ReplaceAll(out, v, "(- "+v+" "+X+")")
 		out = strings.ReplaceAll(out, "\x00", v)
 		return out
 	}
+}
+
+// isSelectIndex: the term starting at position k is the last argument of a (select A idx) application.
+func isSelectIndex(body string, k int) bool {
+	// walk back over one balanced term (the array) and expect "(select " before it
+	p := k - 1
+	if p < 0 || body[p] != ' ' {
+		return false
+	}
+	p--
+	d := 0
+	inq := false
+	for ; p >= 0; p-- {
+		c := body[p]
+		if c == '|' {
+			inq = !inq
+			continue
+		}
+		if inq {
+			continue
+		}
+		if c == ')' {
+			d++
+		} else if c == '(' {
+			d--
+			if d == 0 {
+				break
+			}
+			if d < 0 {
+				return false
+			}
+		} else if c == ' ' && d == 0 {
+			p++
+			break
+		}
+	}
+	if p < 0 {
+		return false
+	}
+	// p is the start of the array term
+	return p >= 8 && body[p-8:p] == "(select "
+}
+
+// addIndex builds off+idx so that a variable summand ends up last: (+ (+ off a) v).
+func addIndex(off, idx Term) Term {
+	if strings.HasPrefix(idx.S, "(+ ") && balanced(idx.S) {
+		inner := idx.S[3 : len(idx.S)-1]
+		// split the two arguments
+		n := sortEnd(inner)
+		if n < len(inner) {
+			a := Term{inner[:n], sInt}
+			b := Term{strings.TrimSpace(inner[n:]), sInt}
+			if balanced(b.S) && !strings.Contains(b.S, " ") || strings.HasPrefix(b.S, "(") && balanced(b.S) {
+				return app(sInt, "+", app(sInt, "+", off, a), b)
+			}
+		}
+	}
+	return app(sInt, "+", off, idx)
 }
